@@ -245,6 +245,18 @@ def layout(ctx, rule, expect_c=None):
         ok_shape = len(oks) == 1 and len(oks[0][1]) == 4 and all(a.startswith("is:Some(") and "slice::get(bytes, " in a for a in oks[0][1]) \
             and re.match(r"^Result::Ok\{essential_types::predicate::Predicate::Predicate\{std::iter::Iterator::collect\(.*\), std::iter::Iterator::collect\(.*\)\}\}$", oks[0][0]) is not None
         err_shape = len(errs) == 4 and all(v.endswith("PredicateDecodeError::BytesTooShort{}}") and at and at[-1].startswith("is:None(") and "slice::get(bytes, " in at[-1] for v, at in errs)
+        # the element counts used while collecting: node count for the nodes, edge count for the edges
+        takes = []
+        if len(oks) == 1:
+            okt = None
+            for b in dec.blocks:
+                for st in b["stmts"]:
+                    if st["k"] == "assign" and st["rv"].get("k") == "aggr" and st["rv"].get("agg") == "adt" and str(st["rv"].get("adt", "")).endswith("predicate::Predicate"):
+                        okt = [pv.of_operand(o) for o in st["rv"]["ops"]]
+            for t_ in (okt or []):
+                tk = [x for x in t_.walk() if x.kind == "call" and x.a.endswith("Iterator::take")]
+                takes.append([L.show(L.lin(prog, x.sub[1], sym)) for x in tk])
+        ctx.ob(rule, "decoder:collects-n-nodes-and-m-edges", len(takes) == 2 and takes[0] in ([], ["n"]) and takes[1] in ([], ["m"]), dec.loc(0), "take() bounds of the node / edge collectors: %s (n = node count, m = edge count)" % takes, dec)
         ctx.ob(rule, "decoder:returns-only-after-reading-all-four-parts", ok_shape and err_shape, dec.loc(0),
                "%d Ok return(s) under %s successful reads; %d error return(s)" % (len(oks), [len(at) for _, at in oks], len(errs)), dec)
 
@@ -283,6 +295,19 @@ def closure_width(prog, clo):
 
 
 STRUCTURAL = re.compile(r" as std::(cmp::(PartialEq|Eq|Ord|PartialOrd)|hash::Hash)(<.*>)?>::(eq|ne|cmp|partial_cmp|hash|lt|le|gt|ge|max|min|clamp)$")
+
+
+def hash_bytes_exact(ctx, rule):
+    """hash_bytes is SHA-256 of its argument for every input (no special case, e.g. for the empty slice)."""
+    prog = ctx.prog
+    f = prog.fn("essential_hash::hash_bytes")
+    if not ctx.anchor(rule, "fn hash_bytes", f):
+        return
+    ctx.saw(f)
+    rows = [(v, at) for _, v, at in M.return_table(prog, f)]
+    upd = [(c, [M.render(x) for x in a]) for _, c, a, _ in calls(prog, f) if c.endswith("Digest>::update")]
+    ok = rows == [("<T as std::convert::Into<U>>::into(<D as digest::digest::Digest>::finalize(<D as digest::digest::Digest>::new()))", [])] and len(upd) == 1 and upd[0][1][-1:] == ["bytes"]
+    ctx.ob(rule, "hash_bytes:sha256-of-the-argument-for-every-input", ok, "%s:%d" % (f.file, f.line), "returns %s; update(%s)" % ([(v[:60], at) for v, at in rows], [u[1][-1:] for u in upd]), f)
 
 
 def structural_traits(ctx, rule):
